@@ -25,8 +25,16 @@ import traceback
 from .tape import Tape, mix
 
 VERIF = os.path.dirname(os.path.dirname(os.path.abspath(__file__)))
-REPLAYS = os.path.join(VERIF, "replays")
-EVIDENCE = os.path.join(VERIF, "evidence")
+if os.path.abspath(os.environ.get("VERIF_REPO", "/repo")) == "/repo":
+    REPLAYS = os.path.join(VERIF, "replays")
+    EVIDENCE = os.path.join(VERIF, "evidence")
+else:
+    # runs against a scratch copy (mutants, seeded changes) must never touch
+    # the evidence of the real tree
+    _alt = os.path.join("/tmp", "verif_scratch_out",
+                        os.path.basename(os.environ["VERIF_REPO"].rstrip("/")))
+    REPLAYS = os.path.join(_alt, "replays")
+    EVIDENCE = os.path.join(_alt, "evidence")
 KNOWN = os.path.join(VERIF, "known_findings.json")
 
 
@@ -155,7 +163,7 @@ def _chunk(args):
             if time.time() > deadline:
                 break
             rs = run_seed_for(base, engine.name, prop, i)
-            faulthandler.dump_traceback_later(120, exit=True)
+            faulthandler.dump_traceback_later(240, exit=True)
             try:
                 out, sc, trec, srec = run_one(
                     engine, prop, tier, run_seed=rs,
